@@ -97,7 +97,7 @@ def classes_for(focus):
            "zero_output", "max_output", "over_max_output", "u64_output", "total_over_max", "overspend_by_1",
            "reward_no_fee_tx"]
     c05 = ["valid", "valid_multi", "pow_fails", "target_plus1", "target_minus1", "stale_target", "height_plus1",
-           "height_minus1", "cb_height_wrong", "ts_equal_parent", "ts_before_parent", "ts_future_31", "ts_future_30",
+           "height_minus1", "cb_height_wrong", "txs_reordered", "ts_equal_parent", "ts_before_parent", "ts_future_31", "ts_future_30",
            "ev_summary_hash", "ev_chain_sample", "ev_block_hash", "ev_other_fork", "merkle_wrong", "txs_dropped",
            "no_txs", "orphan"]
     return {"C01": c01, "C02": c02, "C05": c05, "all": sorted(set(c01 + c02 + c05))}[focus]
@@ -362,6 +362,16 @@ def make_candidate(cr, klass, parent_hash, now_holder):
         return cr.craft(parent_hash, evidence_view=_FakeView(cs, rng.choice(others))), now
     if klass == "merkle_wrong":
         return cr.craft(parent_hash, merkle=bytes(rng.getrandbits(8) for _ in range(32))), now
+    if klass == "txs_reordered":
+        others = t.random_txs(parent_hash, 2)
+        if len(others) < 2:
+            return None
+        genuine = cr.craft(parent_hash, others=others)
+        now_holder.append(genuine)                                   # the genuine block is validated first
+        txs_ = list(genuine.transactions)
+        txs_[1], txs_[2] = txs_[2], txs_[1]
+        # a sibling mined for the reordered body, carrying the commitment of the original order
+        return cr.craft(parent_hash, txs=txs_, merkle=genuine.merkle_root_hash, timestamp=genuine.timestamp), now
     if klass == "txs_dropped":
         others = t.random_txs(parent_hash, 2)
         if not others:
